@@ -207,11 +207,11 @@ class HyperLogLog[T: Hashable](CardinalitySketch):
         of both streams.
 
         Args:
-            other: Another HyperLogLog with same precision.
+            other: Another HyperLogLog with same precision and seed.
 
         Raises:
             TypeError: If other is not a HyperLogLog.
-            ValueError: If other has different precision.
+            ValueError: If other has different precision or seed.
         """
         if not isinstance(other, HyperLogLog):
             raise TypeError(f"Can only merge with HyperLogLog, got {type(other).__name__}")
@@ -219,6 +219,8 @@ class HyperLogLog[T: Hashable](CardinalitySketch):
             raise ValueError(
                 f"Cannot merge: precision differs ({self._precision} vs {other._precision})"
             )
+        if other._seed != self._seed:
+            raise ValueError(f"Cannot merge: seeds differ ({self._seed} vs {other._seed})")
 
         # Take maximum of each register
         for i in range(self._num_registers):
